@@ -377,7 +377,14 @@ impl fmt::Display for IterableKind {
                     .join(", ")
             ),
             IterableKind::PositiveIntegers(v) => format!("{:?}", v),
-            IterableKind::Strings(v) => format!("{:?}", v),
+            //a string holds its text as it was written, escapes included: it is quoted, not escaped again
+            IterableKind::Strings(v) => format!(
+                "[{}]",
+                v.iter()
+                    .map(|value| format!("\"{}\"", value))
+                    .collect::<Vec<_>>()
+                    .join(", ")
+            ),
             IterableKind::Edges(v) => format!("{:?}", v),
             IterableKind::Nodes(v) => format!("{:?}", v),
             IterableKind::Tuples(v) => format!("{:?}", v),
